@@ -339,19 +339,25 @@ fn ref_expr(f: &FT, x: &str, g: u8) -> Option<String> {
 fn perm_expr(f: &FT, x: &str, g: u8) -> String {
     match f {
         FT::Entity | FT::EntityRenamed => format!("pi(*{})", x),
-        FT::Derived(j) => format!("perm_T{}({}, pi)", j, x),
+        FT::Derived(j) => format!("perm_T{}({}, pi, direct)", j, x),
         FT::Generic if g == 0 => format!("pi(*{})", x),
-        FT::OpaqueSkip => "Opaque::default()".into(),
+        // skipped by serde: lost when the data goes through a serialiser, kept when it does not
+        FT::OpaqueSkip => format!("if direct {{ {}.clone() }} else {{ Opaque::default() }}", x),
         _ => format!("{}.clone()", x),
     }
 }
 
 fn print_type(out: &mut String, i: usize, t: &NType) {
-    let gdecl = if t.generic { "<E: EntityLike>" } else { "" };
+    // the bound of a generic parameter is written inline or (odd type index) in a where clause
+    let (gdecl, wh) = match (t.generic, i % 2) {
+        (false, _) => ("", ""),
+        (true, 0) => ("<E: EntityLike>", ""),
+        (true, _) => ("<E>", " where E: EntityLike"),
+    };
     let _ = writeln!(out, "#[derive(ConvertSaveload, Clone, Debug, PartialEq)]");
     match &t.shape {
         Shape::Named(fs) => {
-            let _ = writeln!(out, "pub struct T{}{} {{", i, gdecl);
+            let _ = writeln!(out, "pub struct T{}{}{} {{", i, gdecl, wh);
             for (k, f) in fs.iter().enumerate() {
                 let _ = writeln!(out, "    {}pub f{}: {},", attrs(f).replace("RENAMED", &format!("r{}", k)), k, ty_name(f, "E"));
             }
@@ -359,10 +365,10 @@ fn print_type(out: &mut String, i: usize, t: &NType) {
         }
         Shape::Tuple(fs) => {
             let body: Vec<String> = fs.iter().map(|f| format!("{}pub {}", attrs(f), ty_name(f, "E"))).collect();
-            let _ = writeln!(out, "pub struct T{}{}({});", i, gdecl, body.join(", "));
+            let _ = writeln!(out, "pub struct T{}{}({}){};", i, gdecl, body.join(", "), wh);
         }
         Shape::Enum(vs) => {
-            let _ = writeln!(out, "pub enum T{}{} {{", i, gdecl);
+            let _ = writeln!(out, "pub enum T{}{}{} {{", i, gdecl, wh);
             for (k, v) in vs.iter().enumerate() {
                 match v {
                     Var::Unit => {
@@ -471,7 +477,7 @@ fn print_type(out: &mut String, i: usize, t: &NType) {
         }
         let _ = writeln!(out, "}}");
         // permuted expectation
-        let _ = writeln!(out, "#[allow(unused_variables)]\nfn perm_{}(v: &{}, pi: &dyn Fn(Entity) -> Entity) -> {} {{", tag, ty, ty);
+        let _ = writeln!(out, "#[allow(unused_variables)]\nfn perm_{}(v: &{}, pi: &dyn Fn(Entity) -> Entity, direct: bool) -> {} {{", tag, ty, ty);
         match &t.shape {
             Shape::Named(fs) => {
                 let body: Vec<String> = fs.iter().enumerate().map(|(k, f)| format!("f{}: {}", k, perm_expr(f, &format!("(&v.f{})", k), g))).collect();
@@ -612,7 +618,7 @@ fn check<T>(
     n: u32,
     make: fn(&mut Rng, &[Entity]) -> T,
     reference: fn(&T, &dyn Fn(Entity) -> Value) -> Value,
-    perm: fn(&T, &dyn Fn(Entity) -> Entity) -> T,
+    perm: fn(&T, &dyn Fn(Entity) -> Entity, bool) -> T,
 ) where
     T: ConvertSaveload<M> + PartialEq + std::fmt::Debug,
     <T as ConvertSaveload<M>>::Error: std::fmt::Debug,
@@ -643,9 +649,23 @@ fn check<T>(
             Ok(b) => b,
             Err(e) => return report(name, index, "convert_from", false, format!("value #{} {:?}: error {:?}", k, v, e)),
         };
-        let expect = perm(&v, &pi);
+        let expect = perm(&v, &pi, false);
         if back != expect {
             return report(name, index, "convert_from", false, format!("value #{} {:?}: round trip through a permuted marker mapping gives {:?}, the field-wise definition gives {:?}", k, v, back, expect));
+        }
+        // the same without a serialiser in between: fields that are not converted are cloned, also
+        // those that serde would skip
+        let data3 = match v.convert_into(|e| cx.markers.get(&e).cloned()) {
+            Ok(d) => d,
+            Err(e) => return report(name, index, "convert_into", false, format!("value #{} {:?}: error {:?}", k, v, e)),
+        };
+        let back3 = match T::convert_from(data3, |mk: M| cx.by_id.get(&mk.id()).map(|i| cx.ents[(*i + 1) % nents])) {
+            Ok(b) => b,
+            Err(e) => return report(name, index, "convert_from", false, format!("value #{} {:?}: error {:?}", k, v, e)),
+        };
+        let expect3 = perm(&v, &pi, true);
+        if back3 != expect3 {
+            return report(name, index, "convert_from", false, format!("value #{} {:?}: direct round trip (no serialiser in between) gives {:?}, the field-wise definition gives {:?}", k, v, back3, expect3));
         }
     }
     report(name, index, "convert", true, String::new());
@@ -837,7 +857,7 @@ pub fn c18() -> Property {
             shards: |t: Tier| t.pick(1, 8),
             run: c18_run,
             replay: c18_replay,
-            rule: "a proptest strategy over a type-definition grammar (named / tuple structs with 1..6 (occasionally 9..13) fields, enums with 1..5 variants of unit / tuple / named kind (1..3, occasionally 9..13 fields), field types Entity, u8, i64, String, Option<u16>, Vec<u32>, (u8,bool), [u8;3], earlier derived types to nesting depth 3, a generic parameter instantiated with Entity and with u32, fields marked #[convert_save_load_skip_convert] with and without a forwarded #[convert_save_load_attr(serde(skip, default))]) and over #[derive(Component)] declarations (no attribute, #[storage(K)], #[storage(K<Self>)], path-qualified, seven storage kinds, generic structs); the printed crate contains per type a hand-expanded field-wise reference conversion (independent of the macro); per type and value (50 quick / 200 thorough): serde_json(convert_into) == reference JSON, convert_from through a marker mapping that composes to a permutation == field-wise expectation, TypeId of the derived Storage == requested storage; non-trivial = a type with >= 2 fields mixing Entity and non-Entity fields or an enum with >= 2 variant kinds (components: an explicit storage attribute); evaluations = type definitions checked",
+            rule: "a proptest strategy over a type-definition grammar (named / tuple structs with 1..6 (occasionally 9..13) fields, enums with 1..5 variants of unit / tuple / named kind (1..3, occasionally 9..13 fields), field types Entity, u8, i64, String, Option<u16>, Vec<u32>, (u8,bool), [u8;3], earlier derived types to nesting depth 3, a generic parameter instantiated with Entity and with u32, fields marked #[convert_save_load_skip_convert] with and without a forwarded #[convert_save_load_attr(serde(skip, default))]) and over #[derive(Component)] declarations (no attribute, #[storage(K)], #[storage(K<Self>)], path-qualified, seven storage kinds, generic structs); the printed crate contains per type a hand-expanded field-wise reference conversion (independent of the macro); per type and value (50 quick / 200 thorough): serde_json(convert_into) == reference JSON, convert_from through a marker mapping that composes to a permutation == field-wise expectation (once through JSON, once directly), generic bounds inline or in a where clause, every third enum variant with a forwarded serde(rename), TypeId of the derived Storage == requested storage; non-trivial = a type with >= 2 fields mixing Entity and non-Entity fields or an enum with >= 2 variant kinds (components: an explicit storage attribute); evaluations = type definitions checked",
             exe_env: None,
         }],
         crash_is_violation: false,
